@@ -79,7 +79,7 @@ def run_corpus(job):
             events.append({"ev": "end", "exit": exitc, "files": [], "lock": lock_abs, "cls": cls, "pure": pure,
                            "tmpleft": len(P.tmp_entries()), "snapeq": snap0 == snap1, "others_same": others0 == others1,
                            "reported": [], "total": tot if tot is not None else -1, "count": cnt if cnt is not None else -1,
-                           "rc": r.rc if r.rc is not None else -1, "pos_match": pos_match})
+                           "rc": r.rc if r.rc is not None else -1, "pos_match": pos_match, "inserted_ids": []})
             facts.setdefault("steps", []).append({"mode": mode, "exit": r.exit_class, "total": tot, "count": cnt,
                                                   "changed_files": sum(1 for c in cls if c == "new")})
             state = after
